@@ -307,6 +307,7 @@ def run(ctx):
     from ..elems import ElemLib as _ElemLib
 
     ctx.attempt(_beamops.interpolation_rule, ctx, _ElemLib(repo), "R9.13")
+    ctx.attempt(load_family_rule, ctx)
     selection_rules(ctx)
 
     # ---- R9.5 point load
@@ -477,3 +478,42 @@ def gauss_coordinates_order_rule(ctx):
             r.fail(f.qualname, "selection-order", f.file, f.lineno, "Get_GaussCoordinates_e_pg", f"selection {sel}: {bad}: a position-dependent load is evaluated at another element's Gauss points than the one whose nodes receive it")
         else:
             r.ok(f"selection {sel}: rows follow the selection")
+
+
+def load_family_rule(ctx):
+    """R9.14: the load entry points of a simulation form one family (add_neumann / add_lineLoad / add_surfLoad /
+    add_volumeLoad / add_pressureLoad, all taking `problemType`): a simulation class that overrides some of them to
+    change the default problem the load goes to (the displacement problem of a staggered simulation) overrides all of
+    them -- a sibling left at the base default sends a line / surface / volume load to another problem (or rejects the
+    unknowns of the displacement problem)."""
+    repo = ctx.repo
+    simu = repo.cls(SIMU)
+    r = ctx.rule("R9.14", "load entry points with a problemType default are overridden together: a class that re-targets one of them re-targets all of them", min_instances=1)
+    family = [nm for nm, f in simu.methods.items() if nm.startswith("add_") and "problemType" in f.params() and nm != "add_dirichlet"]
+    if len(family) < 4:
+        raise AnalysisError("R9.14: the load family of _Simu was not found")
+
+    def default_of(f):
+        a = f.node.args
+        names = [x.arg for x in a.args]
+        if "problemType" not in names:
+            return None
+        i = names.index("problemType") - (len(names) - len(a.defaults))
+        return norm_text(a.defaults[i]) if 0 <= i < len(a.defaults) else None
+
+    for ci in sorted(repo.subclasses(simu), key=lambda c: c.qualname):
+        own = {nm: ci.methods[nm] for nm in family if nm in ci.methods and ci.methods[nm].cls is ci}
+        retargeted = {nm: default_of(f) for nm, f in own.items() if default_of(f) not in (None, "None")}
+        if not retargeted:
+            continue
+        r.instance(fn=ci.qualname)
+        missing = sorted(nm for nm in family if nm not in retargeted)
+        targets = set(retargeted.values())
+        if missing:
+            f0 = next(iter(own.values()))
+            r.fail(ci.qualname, f"family:{ci.name}", f0.file, f0.lineno, ci.name, f"{ci.name} sends {sorted(retargeted)} to {sorted(targets)} by default but leaves {missing} at the base default: {missing[0]} on the displacement unknowns is rejected (or goes to the other problem)")
+        elif len(targets) > 1:
+            f0 = next(iter(own.values()))
+            r.fail(ci.qualname, f"family-targets:{ci.name}", f0.file, f0.lineno, ci.name, f"{ci.name}: the load entry points default to different problems {sorted(targets)}")
+        else:
+            r.ok(f"{ci.name}: every load entry point defaults to {sorted(targets)[0]}")
